@@ -5,6 +5,7 @@ import (
 	"fmt"
 	"go/token"
 	"strings"
+	"sync"
 	"testing"
 	"unicode/utf8"
 
@@ -241,5 +242,36 @@ func FuzzC18(f *testing.F) {
 		}
 		b, _ := json.Marshal(c)
 		fuzzViolation(t, "C18", "c18inproc", "fuzz", len(b), c, fmt.Sprintf("configuration %s: %s", b, why))
+	})
+}
+
+var (
+	fuzzC08Once sync.Once
+	fuzzC08Pkgs []string
+	fuzzC08Src  map[string]string
+)
+
+// FuzzC08: any exclude-checks string on the 16-code probe, through the repository's own flag-value
+// parser in-process: run(S) must equal the unrestricted run filtered by the reference matcher.
+func FuzzC08(f *testing.F) {
+	for _, s := range []string{"IMM", "imm01,CTOR", " all ", "IMM01,imm01,IMM02,IMM03", "tonl, PKGO02,", ",", "IM,IMM0,*", "ctor01,,ctor03,", "Impl03 , imm", "ALL,ZZZ"} {
+		f.Add(s)
+	}
+	f.Fuzz(func(t *testing.T, raw string) {
+		if !utf8.ValidString(raw) || strings.ContainsRune(raw, 0) || len(raw) > 200 {
+			return
+		}
+		// code tokens are ASCII in the documented table; case folding of other scripts
+		// (dotless i, long s ...) is outside what the statement defines
+		for _, r := range raw {
+			if r > 127 {
+				return
+			}
+		}
+		fuzzC08Once.Do(func() { fuzzC08Pkgs, fuzzC08Src = probeSources() })
+		c := c08Case{Pkgs: fuzzC08Pkgs, Sources: fuzzC08Src, Raw: raw, Via: "parser"}
+		if why := c08Check(c); why != "" {
+			fuzzViolation(t, "C08", "c08", "fuzz", len(raw), c, fmt.Sprintf("exclude-checks=%q: %s", raw, why))
+		}
 	})
 }
